@@ -177,6 +177,16 @@ func vfC05Run(cs vfC05Case, res *vfC05Stats) string {
 			if pos < 0 {
 				return fmt.Sprintf("step %d: after the transfer (%s) ended on both sides, server output no longer reaches the terminal", i, a.Outcome)
 			}
+			// and what the user types goes to the server again
+			inMarker := []byte(fmt.Sprintf("<<VERIF-TYPED-%d>>", i))
+			sess.typeInput(inMarker)
+			deadline = time.Now().Add(4 * time.Second)
+			for !bytes.Contains(sess.shellIn.bytes(), inMarker) {
+				if time.Now().After(deadline) {
+					return fmt.Sprintf("step %d: after the transfer (%s) ended on both sides, typed input no longer reaches the server", i, a.Outcome)
+				}
+				time.Sleep(time.Millisecond)
+			}
 			termBase, shellBase = pos+len(marker), sess.shellIn.len()
 			wantTerm, wantShell = nil, nil
 			continue
@@ -219,7 +229,7 @@ func vfC05Transfer(sess *vfSession, a vfC05Act, src, base string) string {
 			return ""
 		}
 		dest = filepath.Join(base, "missing-download-dir")
-	case "failed", "stopped":
+	case "failed", "stopped", "stopped_ui":
 		paths = []string{filepath.Join(src, "big.bin")}
 		cfg.Bufsize = 1024
 	}
@@ -258,6 +268,18 @@ func vfC05Transfer(sess *vfSession, a vfC05Act, src, base string) string {
 		}
 		time.Sleep(30 * time.Millisecond)
 		sess.filter.StopTransferringFiles(false)
+	case "stopped_ui":
+		// the user's way: Ctrl-C, the stop question (shown in quiet mode too), Ctrl-C again for a plain stop
+		deadline := time.Now().Add(5 * time.Second)
+		for !sess.filter.IsTransferringFiles() && time.Now().Before(deadline) {
+			time.Sleep(time.Millisecond)
+		}
+		time.Sleep(30 * time.Millisecond)
+		from := sess.termOut.len()
+		sess.typeInput([]byte{0x03})
+		if !vfAnswerPrompt(sess, from, "\x03") {
+			sess.filter.StopTransferringFiles(false) // no question came up (the transfer was over already, or an old protocol)
+		}
 	}
 	run.finish(40 * time.Second)
 	if !run.serverEnded {
@@ -356,7 +378,7 @@ func vfGenC05(rt *rapid.T) vfC05Case {
 		switch {
 		case withTransfers && k == 0:
 			a.Kind = "transfer"
-			a.Outcome = rapid.SampledFrom([]string{"succeeded", "refused", "failed", "stopped", "forked"}).Draw(rt, "outcome")
+			a.Outcome = rapid.SampledFrom([]string{"succeeded", "refused", "failed", "stopped", "stopped_ui", "forked"}).Draw(rt, "outcome")
 			a.Upload = rapid.Bool().Draw(rt, "upload")
 		case cs.Sess.Drag && k == 1 && rapid.IntRange(0, 2).Draw(rt, "dragback") == 0:
 			a.Kind = "dragback"
@@ -387,7 +409,7 @@ func vfGenC05(rt *rapid.T) vfC05Case {
 			}
 		}
 		if !has {
-			cs.Acts = append([]vfC05Act{{Kind: "transfer", Outcome: rapid.SampledFrom([]string{"succeeded", "refused", "failed", "stopped", "forked"}).Draw(rt, "outcome2"),
+			cs.Acts = append([]vfC05Act{{Kind: "transfer", Outcome: rapid.SampledFrom([]string{"succeeded", "refused", "failed", "stopped", "stopped_ui", "forked"}).Draw(rt, "outcome2"),
 				Upload: rapid.Bool().Draw(rt, "upload2")}}, cs.Acts...)
 		}
 	}
